@@ -86,6 +86,15 @@ def run(ctx):
 
     # R03.6 closed => None, never parked ---------------------------------------
     leaf.check_closed_clause(ctx, "R03.6", sentinel)
+    # "always once the last one is gone": a subscriber parked around the close must still be woken / see the sentinel (C02 clauses)
+    from . import c02
+    leaf.check_critical_section(ctx, "R02.1")
+    leaf.check_pending_registered(ctx, "R02.2")
+    wakes = find_wake_fn(F)
+    if len(wakes) == 1:
+        c02.r02_3(ctx, wakes[0])
+        c02.r02_4(ctx, wakes[0])
+        c02.r02_5(ctx, wakes[0])
 
 
 def owner_counter_field(F):
@@ -226,6 +235,21 @@ def check_upgrade(ctx, f):
     for loc, s in b.iter_stmts():
         if s["k"] == "assign" and s["rv"]["k"] == "agg" and s["rv"].get("adt") == "shared::SharedObservable":
             aggs.append((loc, s))
+    # the family constructor (fresh owner counter) must not be used here, neither called nor passed as a function item
+    fam = [g for g in F.find(crate=EY) if g.built and any(s_["k"] == "assign" and s_["rv"]["k"] == "agg" and s_["rv"].get("adt") == "shared::SharedObservable"
+                                                         and contains(g.built.expr_of_op(s_["rv"]["ops"][s_["rv"]["fields"].index(counter)]), lambda x: x[0] == "call" and ecall_matches(x, r"Arc::<.*>::new$"))
+                                                         for _, s_ in g.built.iter_stmts())]
+    for g in fam:
+        uses = [blk for blk, t in b.calls() if F.local_callee(f, t) is g]
+        items = []
+        for blk, t in b.calls():
+            for a in t["args"]:
+                if a["k"] == "const" and a.get("fn") and F.fns.get(f.crate + "::" + a["fn"]) is g:
+                    items.append(blk)
+        if uses or items:
+            ctx.violated("R03.5", f, "upgrade-uses-family-constructor", b.line_at(((uses + items)[0], 10 ** 6)),
+                         "upgrade builds its result through `%s`, i.e. with a fresh owner counter: the upgraded handle believes it is the only clone, so dropping it closes the state while other owners are alive (and observable_count forks)" % g.path)
+            return
     if not aggs:
         ctx.undecided("R03.5", f, "upgrade-provenance", f.loc(), "no direct construction of SharedObservable in upgrade (constructed elsewhere?)")
         return
